@@ -92,6 +92,8 @@ type issuer struct {
 	gate    chan struct{} // if non-nil the first request blocks on it
 	serial  int64
 	dirMode bool // an identity directory is configured (so the trust anchors are fetched with every certificate)
+	hammer  int  // consumers started from inside each renewal request
+	hwg     sync.WaitGroup
 }
 
 func (is *issuer) fn(ctx context.Context, csrDER []byte) ([]*x509.Certificate, error) {
@@ -107,6 +109,22 @@ func (is *issuer) fn(ctx context.Context, csrDER []byte) ([]*x509.Certificate, e
 	is.mu.Unlock()
 	if idx == 0 && gate != nil {
 		<-gate
+	}
+	if idx > 0 && is.src != nil && is.hammer > 0 {
+		for r := 0; r < is.hammer; r++ {
+			is.hwg.Add(1)
+			go func() {
+				defer is.hwg.Done()
+				for k := 0; k < 200; k++ {
+					if sv, err := is.src.GetX509SVID(); err != nil || sv == nil {
+						is.mu.Lock()
+						is.srcErrs = append(is.srcErrs, fmt.Sprintf("a consumer busy during renewal request %d got (%v, %v) from GetX509SVID", idx, sv, err))
+						is.mu.Unlock()
+						return
+					}
+				}
+			}()
+		}
 	}
 	if idx > 0 && is.src != nil {
 		// A renewal request is made with the identity currently served: the source must answer while it is in flight.
@@ -376,6 +394,7 @@ type renewCase struct {
 	Script []response
 	Steps  []time.Duration
 	Dir    bool
+	Hammer int // that many goroutines start asking the SVID source (200 calls each) from inside every renewal request, so that consumers are busy on the source while the renewal completes and the new SVID is installed
 }
 
 func (c renewCase) String() string {
@@ -383,7 +402,7 @@ func (c renewCase) String() string {
 	for _, r := range c.Script {
 		s = append(s, r.String())
 	}
-	return fmt.Sprintf("spiffe.renew{script=[%s] steps=%v dir=%v}", strings.Join(s, " "), c.Steps, c.Dir)
+	return fmt.Sprintf("spiffe.renew{script=[%s] steps=%v dir=%v hammer=%d}", strings.Join(s, " "), c.Steps, c.Dir, c.Hammer)
 }
 
 type renewOutcome struct{ failures, successes int }
@@ -398,7 +417,7 @@ func runRenew(t *testing.T, c renewCase) (out renewOutcome, err error) {
 		defer os.RemoveAll(scratch)
 	}
 	berr := vk.Bubble(t, c.String(), func() {
-		is := &issuer{script: c.Script, dirMode: c.Dir}
+		is := &issuer{script: c.Script, dirMode: c.Dir, hammer: c.Hammer}
 		opts := spiffe.Options{Log: qlog, RequestSVIDFn: is.fn}
 		target := ""
 		if c.Dir {
@@ -609,7 +628,7 @@ func TestRenewal(t *testing.T) {
 	durs := []time.Duration{time.Second, 5 * time.Second, 10 * time.Second, 30 * time.Second, time.Minute, 90 * time.Second, 10 * time.Minute, time.Hour, 12 * time.Hour, 24 * time.Hour}
 	valid := []time.Duration{20 * time.Second, time.Minute, 2 * time.Minute, 3 * time.Minute, 10 * time.Minute, time.Hour, 24 * time.Hour, 365 * 24 * time.Hour}
 	vk.Check(t, 1500, 400000, func(rt *rapid.T) {
-		c := renewCase{Dir: rapid.IntRange(0, 3).Draw(rt, "dir") == 0}
+		c := renewCase{Dir: rapid.IntRange(0, 3).Draw(rt, "dir") == 0, Hammer: rapid.SampledFrom([]int{0, 0, 2, 8}).Draw(rt, "hammer")}
 		n := rapid.IntRange(0, 6).Draw(rt, "nscript")
 		for i := 0; i < n; i++ {
 			if rapid.IntRange(0, 2).Draw(rt, "fail") == 0 {
@@ -656,6 +675,9 @@ func TestRenewal(t *testing.T) {
 		}
 		if c.Dir {
 			cls = append(cls, "identity-directory")
+		}
+		if c.Hammer > 0 {
+			cls = append(cls, "consumers-busy-during-renewal")
 		}
 		sec.Case(out.failures >= 1 && out.successes >= 2, vk.FP(c.String()), cls...)
 		sec.Sample(func() any { return c.String() })
